@@ -189,8 +189,8 @@ int macros_append(
   name_len = strlen(name) + 1;
   value_len = strlen(value) + 1;
 
-  // The name of the macro can only be 255 chars
-  if (name_len > 255)
+  // The name length is stored in MacroData.name_len (int8_t).
+  if (name_len > 127)
   {
     printf("Error: Macro name '%s' is too big.\n", name);
     return -1;
